@@ -25,6 +25,10 @@ type Case struct {
 
 func field(c Case) *recipe.Node {
 	n := recipe.Id("F").C("String")
+	if len(c.Tag)%2 == 1 {
+		// the field assembled from parts a helper was handed: Add(name, type).Tag(m)
+		n = recipe.S().Add(recipe.Id("F"), recipe.S().C("String"))
+	}
 	call := recipe.Call{Fn: "Tag", Tag: c.Tag, NoTag: c.Nil && len(c.Tag) == 0}
 	n.Calls = append(n.Calls, call)
 	return n
